@@ -369,7 +369,7 @@ def rule_options(repo: Repo) -> RuleResult:
                 r.fail(Finding("C08.options", f, "call:str(operand)", f"{unparse(c)} prints a nested condition with the default options "
                                f"(should_simplify=True, decimal_digits=2) instead of the ones requested", node=c))
         if isinstance(c.func, ast.Attribute) and any("attr:operands" in x for x in _safe(p, c.func.value)) and \
-                callee_name(c) not in ("__str__", "print", "copy", "to_pddl", "to_mathematical", "append", "add", "sort"):
+                callee_name(c) not in ("__str__", "copy", "to_pddl", "to_mathematical", "append", "add", "sort"):
             # a nested condition is printed through the condition class's own entry point: a subclass that only overrides __str__
             # (UniversalPrecondition: the quantifier header) must not be bypassed
             m = callee_name(c)
@@ -569,9 +569,76 @@ def rule_valuetext(repo: Repo, rid: str) -> RuleResult:
     return r
 
 
+def rule_allconstants(repo: Repo, rid: str = "C08.allconstants") -> RuleResult:
+    """every constant of the domain is written into (:constants ..): the only entry that may be skipped is the one NAMED 'object' (the
+    placeholder the parser keeps for the root type); a filter on anything else -- the constant's type, its position -- drops declarations"""
+    r = RuleResult(rid, "write_constants collects every constant except the entry named 'object'",
+                   "the re-parsed domain declares exactly the source's constants")
+    f = L.fn(repo, "DomainExporter.write_constants")
+    p = L.prov(repo, f)
+    g = C.cfg_of(f.node)
+    cparam = [x for x in f.params if x != f.self_name]
+    if not cparam:
+        raise AnalysisError("write_constants: parameter with the constants not found")
+    root = f"param:{cparam[0]}"
+    loops = [n for n in ast.walk(f.node) if isinstance(n, ast.For) and any(x[0] == root for x in _safe(p, n.iter))]
+    comps = [n for n in ast.walk(f.node) if isinstance(n, ast.comprehension) and any(x[0] == root for x in _safe(p, n.iter))]
+    r.site(f.qn)
+    if not loops and not comps:
+        raise AnalysisError("write_constants: no walk over the constants found")
+
+    def is_name(e) -> bool:
+        tr = _safe(p, e)
+        # the dict key, or the .name of the constant itself (not of its type)
+        return bool(tr) and all(x[0] == root and "attr:type" not in x and
+                                (x[-1] == "unpack:0" or (x[-1] == "attr:name" and x[-2] in ("unpack:1", "elem")) or
+                                 (x[-1] == "elem" and "call:items" not in x and "call:values" not in x)) for x in tr)
+
+    def matcher(e):
+        if isinstance(e, ast.Compare) and len(e.ops) == 1 and isinstance(e.ops[0], (ast.Eq, ast.NotEq)):
+            a, b = e.left, e.comparators[0]
+            for x, y in ((a, b), (b, a)):
+                if isinstance(y, ast.Constant) and y.value == "object" and is_name(x):
+                    return "named_object" if isinstance(e.ops[0], ast.Eq) else "!named_object"
+        return None
+
+    G = L.Guards(f, matcher)
+    bad = None
+    for comp in comps:
+        val = G._val({"named_object": False}, G.reach({"named_object": False}))
+        if any(C.eval3(t, val) is not True for t in comp.ifs):
+            bad = ("filter", comp.iter)
+    for lp in loops:
+        # what the loop does with a constant: the statements that use the loop variable(s) to fill something
+        uses = set()
+        names = C.target_names(lp.target)
+        for st in ast.walk(lp):
+            if isinstance(st, ast.stmt) and st is not lp and not isinstance(st, (ast.If, ast.For, ast.While)):
+                hdr = C.header(st)
+                if hdr is not None and any(isinstance(c_, ast.Call) and isinstance(c_.func, ast.Attribute) and c_.func.attr in ("append", "add", "update", "extend", "setdefault")
+                                           for c_ in ast.walk(hdr)) and any(isinstance(x, ast.Name) and x.id in names for x in ast.walk(hdr)):
+                    n_ = g.node_of(st)
+                    if n_ is not None:
+                        uses.add(n_)
+                if isinstance(st, ast.Assign) and any(isinstance(t, ast.Subscript) for t in st.targets) and any(isinstance(x, ast.Name) and x.id in names for x in ast.walk(st)):
+                    n_ = g.node_of(st)
+                    if n_ is not None:
+                        uses.add(n_)
+        if not uses:
+            continue
+        if not L.must_pass_in_loop(G, {"named_object": False}, lp, uses):
+            bad = ("skip", lp)
+    if bad:
+        r.fail(Finding(rid, f, "constant-skipped", "a constant that is not the entry named 'object' can be left out of the (:constants ..) section "
+                       "(a filter on something other than that name)", node=bad[1]))
+    else:
+        r.ok({"constants": "all but the entry named 'object'"})
+    return r
+
+
 def rules(repo: Repo, tier: str) -> List[RuleResult]:
     from . import c13
     return [rule_fields(repo, "C08.fields", FIELD_TABLE), rule_typedparams(repo), rule_nocollapse(repo), rule_operand_kinds(repo), rule_polarity(repo), rule_keywords(repo),
             rule_balance(repo, "C08.balance", BALANCE_SITES), rule_order(repo), rule_options(repo),
             # numeric constants of preconditions / effects survive the export up to the print precision (the tree printer is part of the writer)
-            c13.rule_round(repo, "C08.round", ["NumericalExpressionTree.to_pddl"])]
+            c13.rule_round(repo, "C08.round", ["NumericalExpressionTree.to_pddl"]), rule_allconstants(repo)]
